@@ -537,6 +537,20 @@ def presence_conditions(ev, env, block):
             out.add(("pred", term if truth else ("un", "Not", term)))
         elif truth == "forall":
             out.add(term)
+        elif term[0] == "discr" and isinstance(truth, tuple) and truth:
+            # the success edge of a test of an Option/Result (`?`, `let Some(x) = … else`, `if let Ok(..)`): present
+            variants, _, _ = discr_variants(sw.get("body", env.body), sw["block"]) if sw is not None else (None, None, None)
+            names = dict(variants or [])
+            if all(names.get(v) in ("Some", "Ok", "Continue") for v in truth if v != "otherwise") and "otherwise" not in truth:
+                inner = term[1]
+                while inner[0] == "cf":
+                    inner = inner[1]
+                if inner[0] not in ("opt", "none", "agg") or (inner[0] == "opt" and inner[2]):
+                    if inner[0] == "opt":
+                        for c in inner[2]:
+                            out.add(c)
+                    else:
+                        out.add(("is_ok", inner))
     for f in foralls_at(g, block):
         out.add(f)
     return out
